@@ -54,6 +54,9 @@ CHECKS = {
     "C13": ("exploration", "runtime monitoring: offline checker of every query on the simulated wire against a cache model (known answers = non-stale records with remaining TTL, TC split) and a duplicate-question-suppression model evaluated at the observed send instants",
             "Browser queries with 0..300 cached PTRs whose half-life instants straddle the start-up query instants; pairs of askers (two browsers, browser + external QM/QU query with/without authority, subset/equal/superset known answers) at gaps around 0/998/999/1000/1001 ms; service-info lookups with partial caches, forced question types and timeouts 200 ms..10 s.",
             "Cases where two askers act in the same virtual instant or a history entry is exactly 999 ms old are not judged (counted as observations).", "2/C13"),
+    "C15": ("exploration", "runtime monitoring: hostile datagram streams against a live instance with an event-loop exception monitor, state-unchanged assertion for oversized datagrams and two liveness canaries (query answered, announcement delivered)",
+            "Streams of 20..400 random, mutated, adversarially compressed, invalid-UTF-8, oversized and valid datagrams from mDNS and legacy ports (multicast and unicast delivery, both layouts) interleaved with clock advances hit a host with registered services, a browser and lookups in progress; any exception reaching datagram_received's caller or the loop exception handler is a violation; canaries afterwards prove the instance still works.",
+            "Canary names are unique per run.", "2/C15"),
 }
 
 NOT_YET = {}
